@@ -11,7 +11,7 @@ REL = [("eq", "OpEQExpression", "ORC_EQ"), ("ne", "OpNEExpression", "ORC_NE"), (
        ("le", "OpLEExpression", "ORC_LE"), ("gt", "OpGTExpression", "ORC_GT"), ("ge", "OpGEExpression", "ORC_GE")]
 from vxlib import SCALAR_STUBS as STUBS
 
-def binop(name, cls, orc, a, b, props, tier="quick", timeout=180, backends=("z3", "sat"), novalue=False):
+def binop(name, cls, orc, a, b, props, tier="quick", timeout=600, backends=("z3", "sat"), novalue=False):
     return Inst(id="op.%s.%s%s%s" % (name, a, b, ".nv" if novalue else ""), props=props, harness="h_binop.cpp", entry="vx_binop",
                 tus=CORE_TUS + ["blocc/operator/op_%s.cpp" % name],
                 defs=["VX_OP=%s" % cls, 'VX_OPH="blocc/operator/op_%s.h"' % name, "VX_A=%s" % K[a], "VX_B=%s" % K[b], "VX_ORACLE=%s" % orc] + (["VX_NOVALUE=1"] if novalue else []),
